@@ -25,6 +25,20 @@ let parse_ev (t : string) : oevent =
     | _ -> failwith ("bad event " ^ t)
   end
 
+(* the same log with what the await loop received: P Q T<n>n|c I<i>n|o *)
+let parse_qev (t : string) : qevent =
+  let num s = nat_of_int (int_of_string s) in
+  let n = String.length t in
+  if t = "P" then QProv
+  else if t = "Q" then QAggr
+  else if n >= 3 && t.[0] = 'T' then QStart (num (String.sub t 1 (n - 2)), t.[n - 1] = 'c')
+  else if n >= 3 && t.[0] = 'I' && (t.[n - 1] = 'n' || t.[n - 1] = 'o') then QRun (num (String.sub t 1 (n - 2)), t.[n - 1] = 'o')
+  else if n >= 1 && (t.[0] = 'P' || t.[0] = 'Q' || t.[0] = 'T' || t.[0] = 'I') then failwith ("unexpected result " ^ t)
+  else QOp (parse_ev t)
+
+let ops_only (l : qevent list) : oevent list =
+  List.concat (List.map (fun e -> match e with QOp o -> [o] | _ -> []) l)
+
 (* pairing_b n l (Coq, proved equivalent to the per-item statement by C03_pairing_checker) is
    quadratic; for long logs the events are grouped by item here (order preserved) and the
    extracted per-item checker item_complete_b is applied to each group: every item id < n
@@ -43,17 +57,21 @@ let rec sum_own = function [] -> 0 | x :: r -> int_of_nat x.own + sum_own r
 
 let predict (c : string) (obs : string) : string * string * bool =
   match split_blank c with
-  | ["pool"; per; disc; t; a; _; _; _; _] ->
+  | ["pool"; per; disc; t; a; _; _; _; _; sn; _prov] ->
       let per = bool_of_field per and disc = bool_of_field disc in
-      let tn = int_of_string t and an = int_of_string a in
+      let tn = int_of_string t and an = int_of_string a and sn = int_of_string sn in
       let cfg = { per_inst = per; discard_overflow = disc; prof = nat_of_int tn; ammo0 = nat_of_int an } in
       let (counters, logtxt) =
         match String.index_opt obs '|' with
         | Some p -> (String.trim (String.sub obs 0 p), String.trim (String.sub obs (p + 1) (String.length obs - p - 1)))
         | None -> (obs, "") in
       let toks = if logtxt = "" then [] else String.split_on_char ',' logtxt in
-      let evs = List.map parse_ev toks in
-      let ((st, k), accepted) = replay cfg evs (init cfg) O in
+      let qevs = try List.map parse_qev toks with _ -> [QRun (nat_of_int 1000000, false)] in
+      let evs = ops_only qevs in
+      (* the pool model (Model/InstancePool.v): instance sections + start loop over S startup tokens +
+         the await loop of Model/Pool.v fed with the observed results, in the observed order *)
+      let ((pl, k), accepted) = preplay cfg qevs (pinit cfg (nat_of_int sn)) O in
+      let st = pl.core in
       let sh = st.sh in
       let n = List.length st.insts in
       let started = n in
@@ -65,19 +83,28 @@ let predict (c : string) (obs : string) : string * string * bool =
         Printf.sprintf "ok %d %d %d %d %d %d %d %d %d 0" (i sh.acquired) (i sh.released) (i sh.fired) (i sh.discarded)
           (i sh.request) (i sh.response) started started (tokens - left) in
       let pred_log =
-        if accepted && term then logtxt
+        if accepted && term && pool_ended pl then logtxt
+        else if accepted && term then "model-pool-not-ended"
         else if accepted then "model-not-terminal"
         else Printf.sprintf "model-rejects-event-%d:%s" (i k) (try List.nth toks (i k) with _ -> "?") in
       let pred = pred_counters ^ " | " ^ pred_log in
       (* the specification evaluated on the implementation's own counters and log *)
       let v =
         match split_blank counters with
-        | [outcome; acq; rel; shots; dis; req; resp; istart; ifin; _drawn; badsamples] ->
+        | [outcome; acq; rel; shots; dis; req; resp; istart; ifin; drawn; badsamples] ->
             let acq = int_of_string acq and rel = int_of_string rel and shots = int_of_string shots
             and dis = int_of_string dis and req = int_of_string req and resp = int_of_string resp
             and istart = int_of_string istart and ifin = int_of_string ifin in
+            let drawn = int_of_string drawn in
             if outcome <> "ok" then "BAD:run-outcome-" ^ outcome
-            else if istart = 0 then "ok" (* no instance started: outside the statement *)
+            (* C03_started: one instance per startup token, fewer only when the ammo or the shared profile ran out *)
+            else if not (started_ok_b cfg (nat_of_int sn) (nat_of_int istart) (nat_of_int acq) (nat_of_int drawn)) then
+              Printf.sprintf "BAD:instances-started started=%d startup-tokens=%d acquired=%d/%d drawn=%d/%d" istart sn acq an drawn tn
+            else if istart = 0 then "ok" (* startup schedule without tokens: outside the statement *)
+            else if shots + dis <> min (int_of_nat (cfg_tokens cfg (nat_of_int sn))) an then
+              (* C03_conservation_pool: min(tokens, ammo) from the configuration alone *)
+              Printf.sprintf "BAD:conservation-configured fired+discarded=%d min(tokens=%d,ammo=%d)" (shots + dis)
+                (int_of_nat (cfg_tokens cfg (nat_of_int sn))) an
             else begin
               let tokens = if per then istart * tn else tn in
               (* discards carry no item in the observation: attach each to the item its instance holds *)
